@@ -272,6 +272,37 @@ def build_hand(d: dict) -> Circuit:
         h = add(SL.HadamardLayer(K, 2), [a, b])
         s = add(S(K, 1), [h])
         return Circuit(layers, ins, [s])
+    if name == "param-shared-node":
+        # parameter graphs in which the INNER node of an optimizer rewrite pattern has a second consumer:
+        #   which == "softmax": weight = softmax(theta) * exp(log(softmax(theta)))   (Log o Softmax pattern, shared softmax)
+        #   which == "outer":   value  = reduce_sum(op, 1) * reduce_sum(op, 1) with ONE shared outer product op
+        which = d.get("which", "softmax")
+        if which == "softmax":
+            a = add(inp(Scope([vid[0]]), K))
+            b = add(inp(Scope([vid[1]]), K))
+            h = add(SL.HadamardLayer(K, 2), [a, b])
+            th = TensorParameter(1, K, initializer=NormalInitializer())
+            sm = SP.SoftmaxParameter((1, K), axis=-1)
+            lg = SP.LogParameter((1, K))
+            ex = SP.ExpParameter((1, K))
+            hd = SP.HadamardParameter((1, K), (1, K))
+            # softmax * exp(log(softmax)): the softmax node feeds the Log node AND the Hadamard node
+            w = Parameter([th, sm, lg, ex, hd], {sm: [th], lg: [sm], ex: [lg], hd: [sm, ex]}, [hd])
+            s = add(SL.SumLayer(K, 1, weight=w), [h])
+            return Circuit(layers, ins, [s])
+        t1 = TensorParameter(K, 3, initializer=NormalInitializer())
+        t2 = TensorParameter(K, 3, initializer=NormalInitializer())
+        op_ = SP.OuterProductParameter((K, 3), (K, 3), axis=0)
+        r1 = SP.ReduceSumParameter(op_.shape, axis=1)
+        r2 = SP.ReduceSumParameter(op_.shape, axis=1)
+        hd = SP.HadamardParameter(r1.shape, r2.shape)
+        val = Parameter([t1, t2, op_, r1, r2, hd], {op_: [t1, t2], r1: [op_], r2: [op_], hd: [r1, r2]}, [hd])
+        Kc = val.shape[0]
+        c = add(SL.ConstantValueLayer(Kc, log_space=False, value=val))
+        a2 = add(input_factory("embedding")(Scope([vid[0]]), Kc))
+        h2 = add(SL.HadamardLayer(Kc, 2), [a2, c])
+        s2 = add(S(Kc, 1), [h2])
+        return Circuit(layers, ins, [s2])
     if name == "param-reducesum-outerprod":
         # constant layer whose value is reduce_sum(outer_product(p1, p2, axis=oa), axis=ra) -- the einsum rewrite target
         oa, ra = d.get("outer", 0), d.get("reduce", 1)
